@@ -55,7 +55,7 @@ GRID = [
 
 
 def plan(tier):
-    n = len(GRID) + 1 + (500 if tier == "quick" else 8000)
+    n = len(GRID) + 1 + (500 if tier == "quick" else 16000)
     return {"cases": n, "shards": 16, "timeout": 1200 if tier == "quick" else 5400, "min_nontrivial": 150,
             "min": {"draws_tested": 2000000, "density_points_compared": 3000, "statistical_tests": 300}}
 
